@@ -306,12 +306,9 @@ Definition body_values (body : nat) : string :=
                                          | NIntro _ => [] end)
                               (postorder (2 * fuel_of p) (full_adj p) (NIntro body))).
 
-(* compile_graph + (for subgraphs) the value infos that Graph.to_onnx() computes right after it.
-   Returns the emitted graph, the threaded scope, the opset requirements and the functions met (own nodes and subgraphs). *)
-Fixpoint compile (fuel : nat) (s : scope) (g : nat) (prefix : string) (is_main : option bool) : res (mgraph * scope * req * list fdesc) :=
-  match fuel with O => raise EFuel | S f =>
-  do s1 <- foldM (fun s a => scope_update p un s (vnode a) prefix) (args_of g) s ;;
-  do r <- foldM (fun (acc : list mnode * scope * req * list fdesc * list fdesc) (u : nref) =>
+(* one step of compile_graph's loop over the nodes of a scope; [rec] compiles a subgraph (= compile with less fuel) *)
+Definition compile_step (rec : scope -> nat -> string -> option bool -> res (mgraph * scope * req * list fdesc)) (prefix : string)
+    (acc : list mnode * scope * req * list fdesc * list fdesc) (u : nref) : res (list mnode * scope * req * list fdesc * list fdesc) :=
       let '(ms, s, rq, fs, sfs) := acc in
       if is_arg p u then ret acc else
       match u with
@@ -380,14 +377,21 @@ Fixpoint compile (fuel : nat) (s : scope) (g : nat) (prefix : string) (is_main :
                      match snd ka with
                      | AVal _ => ret ((l ++ [(fst ka, None)])%list, s, rq, fs)
                      | AGraph sub =>
-                       do r <- compile f s sub (nm ++ "_" ++ fst ka ++ "__") (Some false) ;;
+                       do r <- rec s sub (nm ++ "_" ++ fst ka ++ "__") (Some false) ;;
                        let '(mg, s', rq', fs') := r in
                        ret ((l ++ [(fst ka, Some mg)])%list, s', union req_eqb rq rq', (fs ++ fs')%list)
                      end) (attrs nd) ([], s2, rq, sfs) ;;
             let '(al, s3, rq3, sfs3) := sg in
             ret ((ms ++ [MNode nm (ident nd) (domain nd) u (trim (min_in nd) inn) (trim (min_out nd) outn) al])%list, s3, rq3, fs, sfs3)
           end
-      end) (own_of g) ([], s1, [], [], []) ;;
+      end.
+
+(* compile_graph + (for subgraphs) the value infos that Graph.to_onnx() computes right after it.
+   Returns the emitted graph, the threaded scope, the opset requirements and the functions met (own nodes and subgraphs). *)
+Fixpoint compile (fuel : nat) (s : scope) (g : nat) (prefix : string) (is_main : option bool) : res (mgraph * scope * req * list fdesc) :=
+  match fuel with O => raise EFuel | S f =>
+  do s1 <- foldM (fun s a => scope_update p un s (vnode a) prefix) (args_of g) s ;;
+  do r <- foldM (compile_step (compile f) prefix) (own_of g) ([], s1, [], [], []) ;;
   let '(ms, s3, rq, fs0, sfs) := r in
   let fs := (fs0 ++ sfs)%list in   (* functions of subgraphs are appended after the graph's own *)
   let nres := List.length (gres (getg p g)) in
